@@ -14,10 +14,13 @@ import (
 type streamFn func(res *Result, drv *Driver, seed uint64, n int, tier string, only int) error
 
 var streams = map[string]streamFn{
+	"db":     runDb,
 	"rio":    runRio,
 	"skip":   runSkip,
 	"riodmg": runRioDmg,
 	"pq":     runPq,
+	"merge":  runMerge,
+	"crash":  runCrash, // crash images from strace'd real runs (C02, C07, C10, C13, C17); flavour via --flavour
 }
 
 func main() {
@@ -27,6 +30,9 @@ func main() {
 		fmt.Fprintln(os.Stderr, "usage: sstcheck <stream> [flags]")
 		os.Exit(2)
 	}
+	if child, ok := crashChildModes[os.Args[1]]; ok { // crashchild / crashprobe / walprobe (crash_child.go)
+		os.Exit(child(os.Args[2:]))
+	}
 	stream := os.Args[1]
 	fs := flag.NewFlagSet(stream, flag.ExitOnError)
 	seed := fs.Uint64("seed", 1, "PRNG seed")
@@ -35,6 +41,8 @@ func main() {
 	drvPath := fs.String("drv", "", "path of the Lean driver executable")
 	out := fs.String("out", "-", "result JSON path")
 	only := fs.Int("only", -1, "run only this case index (replay)")
+	fs.StringVar(&crashFlavour, "flavour", "all", "stream crash: all|sync|async|wal|reject|nested")
+	fs.StringVar(&crashDebugDir, "crash-debug", "", "stream crash: directory for traces/abstract descriptions (debug)")
 	_ = fs.Parse(os.Args[2:])
 	fn, ok := streams[stream]
 	if !ok {
